@@ -44,6 +44,7 @@ instance (g : Ghost) (op : Op) : Decidable (OpOk g op) := by
   | new a k o m r => unfold OpOk; infer_instance
   | del a k => cases k <;> (unfold OpOk; infer_instance)
   | collect m r => unfold OpOk; infer_instance
+  | own a o => unfold OpOk; infer_instance
   | stop => unfold OpOk; infer_instance
   | start => unfold OpOk; infer_instance
   | teardown r => unfold OpOk; infer_instance
@@ -209,6 +210,8 @@ theorem inv_step {g : Ghost} {s : St} (hI : Inv g s) (op : Op) (hok : OpOk g op)
     refine ⟨hI.congr rfl rfl rfl, ⟨[], by simp [step]⟩, fun h => absurd rfl h⟩
   | start =>
     refine ⟨hI.congr rfl rfl rfl, ⟨[], by simp [step]⟩, fun _ _ => rfl⟩
+  | own a owned =>
+    refine ⟨hI.congr rfl rfl rfl, ⟨[], by simp [step]⟩, fun _ h => h⟩
   | collect marks order =>
     obtain ⟨h1, D, E, he, _⟩ := inv_sweep hI marks order
     exact ⟨h1, ⟨E, he.log⟩, fun _ hr => by show (sweep _ _ _ _).running = true; rw [he.running, hr]⟩
